@@ -121,7 +121,7 @@ def rename_ts(text, lang, style):
     return out.decode("utf-8")
 
 
-PY_SCOPES2_NEW = ["in-match-str", "in-match-int", "in-match-default", "in-function-with", "in-if-else", "in-try-except", "in-try-finally", "in-async-function"]
+PY_SCOPES2_NEW = ["in-method", "in-match-str", "in-match-int", "in-match-default", "in-function-with", "in-if-else", "in-try-except", "in-try-finally", "in-async-function"]
 PY_SCOPES2 = ["in-function-class", "in-function-if", "in-function-try", "in-class-class"] + PY_SCOPES2_NEW
 
 
@@ -224,6 +224,7 @@ def embed(row, kind, rng):
                  "in-function-if": ["def wrapper_embedded(flag_embedded):", "    if flag_embedded:"],
                  "in-function-try": ["def wrapper_embedded(flag_embedded):", "    try:"],
                  "in-class-class": ["class OuterEmbedded:", "    class InnerEmbedded:"],
+                 "in-method": ["class FactoryEmbedded:", "    def build_embedded(self, kind_embedded):"],
                  # the remaining compound statements: the arms of a match (string cases / other cases), with, else, except, finally, an async function
                  "in-match-str": ["match CHANNEL_EMBEDDED:", "    case \"email_embedded\":"], "in-match-int": ["match CHANNEL_EMBEDDED:", "    case 1:"],
                  "in-match-default": ["match CHANNEL_EMBEDDED:", "    case _:"],
@@ -341,7 +342,7 @@ def run(ctx):
                         # (the documentation has few TS/JS examples: every scope, alone and with fresh names, also in the quick tier)
                         kinds = ["as-is"] + ts_scopes + ["rename-suffix"] + ["rename-fresh+" + sc for sc in ts_scopes] + ["rename-suffix+" + rng.choice(ts_scopes)]
                     else:
-                        kinds = ["as-is", "repeat2", rng.choice(["in-function-class", "in-function-if", "in-function-try"]), "in-match-str", rng.choice(PY_SCOPES2_NEW[1:]), "rename-" + rng.choice(["suffix", "fresh"]),
+                        kinds = ["as-is", "repeat2", rng.choice(["in-function-class", "in-function-if", "in-function-try"]), "in-match-str", "in-method", rng.choice(PY_SCOPES2_NEW[2:]), "rename-" + rng.choice(["suffix", "fresh"]),
                                  "rename-%s+%s" % (rng.choice(["suffix", "fresh"]), rng.choice(["in-function", "in-function-if"]))] + \
                             rng.sample(["after-filler", "before-filler", "in-function", "in-if", "repeat3", "in-class-class"], 2) + [rng.choice(["in-for", "in-while"]), rng.choice(["body-in-for", "body-in-while", "body-in-if"])] + \
                             ["re-as", "re-from", "re-from-flag-first", "re-from-compile-first", "re-from-extra-last"]  # (apply to the few regex examples only)
